@@ -470,6 +470,7 @@ namespace hgraph
             void wait_for_quiescence() noexcept
             {
                 std::unique_lock lock{mutex_};
+                HGRAPH_VERIF_POINT(sc_quiesce_wait, this, active_calls_, 0);
                 quiescent_.wait(lock, [this] { return active_calls_ == 0; });
                 HGRAPH_VERIF_POINT(sc_quiescent, this, active_calls_, 0);
             }
